@@ -17,14 +17,18 @@ set_option linter.unusedVariables false
 namespace PyGql.Props.C14
 open PyGql.Heap PyGql.Heap.Reg
 
-/-- FULL statement: registering on the clone never changes an inner dict that existed before the clone was made -/
+/-- FULL statement: registering on the clone never changes an inner dict that existed before the clone was made.
+    `filtered` (re-extracted: `merge_resolvers(self._applicable_resolvers(cloned))`, the repair of T5) and the table `exists_` of
+    the `(type, field)` pairs of the clone are arbitrary; the unfiltered variant may reject (`none`: `merge_resolvers(self)`
+    raises `SchemaError` on an entry whose field does not exist any more) -/
 def CloneFramesSourceRegistries (deep : Bool) : Prop :=
-  ∀ (h : RHeap) (src : Registries) (ops : List RegOp), RFrame h.size h (applyOps ops (cloneRegs deep h src)).1
+  ∀ (filtered : Bool) (exists_ : String → String → Bool) (h : RHeap) (src : Registries) (r : RHeap × Registries) (ops : List RegOp),
+    cloneRegs deep filtered exists_ h src = some r → RFrame h.size h (applyOps ops r).1
 
 theorem clone_frames_source_registries : CloneFramesSourceRegistries true := by
-  intro h src ops
-  obtain ⟨a, b⟩ := cloneRegs_deep_ok h src
-  obtain ⟨c, _⟩ := applyOps_ok h.size ops (cloneRegs true h src) a.1 b
+  intro filtered exists_ h src r ops e
+  obtain ⟨a, b⟩ := cloneRegs_deep_ok filtered exists_ h src r e
+  obtain ⟨c, _⟩ := applyOps_ok h.size ops r a.1 b
   exact a.trans c
 
 /-- the registries of the source are well-formed in `h`: every inner dict exists -/
@@ -32,24 +36,62 @@ def RegsIn (h : RHeap) (r : Registries) : Prop := (∀ e, e ∈ r.resolvers → 
 
 /-- … so what the public API shows of the source (`source.resolvers`, `source.subscriptions`, `default_resolvers`,
     `default_resolver`, hence `get_resolver` / `get_subscription`) is the same before and after -/
-theorem clone_keeps_source_digest (h : RHeap) (src : Registries) (hw : RegsIn h src) (ops : List RegOp) :
-    digest (applyOps ops (cloneRegs true h src)).1 src = digest h src := by
-  have f := clone_frames_source_registries h src ops
+theorem clone_keeps_source_digest (filtered : Bool) (exists_ : String → String → Bool) (h : RHeap) (src : Registries) (hw : RegsIn h src)
+    (r : RHeap × Registries) (e : cloneRegs true filtered exists_ h src = some r) (ops : List RegOp) :
+    digest (applyOps ops r).1 src = digest h src := by
+  have f := clone_frames_source_registries filtered exists_ h src r ops e
   simp only [digest, digestOuter, Prod.mk.injEq, and_true]
   refine ⟨List.map_congr_left fun e he => ?_, List.map_congr_left fun e he => ?_⟩
   · simp only [Prod.mk.injEq, true_and]; exact f.2 e.2 (hw.1 e he)
   · simp only [Prod.mk.injEq, true_and]; exact f.2 e.2 (hw.2 e he)
 
+/-- the FILTERING of the repaired `clone()` (T5): every entry `(type, field) ↦ fn` of the clone's `resolvers` and
+    `subscriptions` is an entry of the source's registry AND names a field that exists in the clone — a derived schema
+    never carries a registration for a field it does not have (which `merge_resolvers` would reject the next time) -/
+theorem clone_registries_filtered (exists_ : String → String → Bool) (h : RHeap) (src : Registries) (hw : RegsIn h src)
+    (r : RHeap × Registries) (e : cloneRegs true true exists_ h src = some r) :
+    (∀ t f fn, Entry r.1 r.2.resolvers t f fn → Entry h src.resolvers t f fn ∧ exists_ t f = true) ∧
+    (∀ t f fn, Entry r.1 r.2.subscriptions t f fn → Entry h src.subscriptions t f fn ∧ exists_ t f = true) ∧
+    r.2.defaultResolvers = src.defaultResolvers ∧ r.2.defaultResolver = src.defaultResolver := by
+  simp only [cloneRegs, if_true, Bool.not_true, Bool.false_and, Bool.false_eq_true, if_false, Option.some.injEq] at e
+  subst e
+  obtain ⟨a, b⟩ := mergeOuter_ok h.size exists_ src.resolvers h [] (Nat.le_refl _) (by intro e he; simp at he)
+  have b1 := mergeOuter_built (fun t f fn => Entry h src.resolvers t f fn ∧ exists_ t f = true) exists_ h.size src.resolvers h []
+    (Nat.le_refl _) (by intro e he; simp at he) (Built.empty _ _) hw.1
+    (fun e d x he hr hx hk => ⟨⟨e.2, d, he, hr, hx⟩, hk⟩)
+  obtain ⟨c, d⟩ := mergeOuter_ok h.size exists_ src.subscriptions (mergeOuter exists_ src.resolvers h []).1 [] a.1 (by intro e he; simp at he)
+  have b2 := mergeOuter_built (fun t f fn => Entry h src.subscriptions t f fn ∧ exists_ t f = true) exists_ h.size src.subscriptions
+    (mergeOuter exists_ src.resolvers h []).1 [] a.1 (by intro e he; simp at he) (Built.empty _ _) hw.2
+    (fun e d x he hr hx hk => ⟨⟨e.2, d, he, by rw [← a.2 e.2 (hw.2 e he)]; exact hr, hx⟩, hk⟩)
+  refine ⟨?_, b2.2.2, rfl, rfl⟩
+  rintro t f fn ⟨a', d', hm, hr, hx⟩
+  -- the resolvers' inner dicts (allocated by the first merge) are not written by the second one
+  obtain ⟨c', _⟩ := mergeOuter_ok (mergeOuter exists_ src.resolvers h []).1.size exists_ src.subscriptions
+    (mergeOuter exists_ src.resolvers h []).1 [] (Nat.le_refl _) (by intro e he; simp at he)
+  have hlt := b1.1 _ hm
+  rw [c'.2 a' hlt] at hr
+  exact b1.2.2 t f fn ⟨a', d', hm, hr, hx⟩
+
+def hW2 : RHeap := ⟨[[("hello", 1), ("bye", 2)], [("ev", 3)]]⟩
+def srcW2 : Registries := { resolvers := [("Query", 0)], subscriptions := [("Sub", 1)], defaultResolvers := [("Query", 9)], defaultResolver := some 7 }
+
 /-- the clone itself shows the same registries as its source right after cloning, for the entries that have fields
     (an inner dict without fields is not carried over by `merge_resolvers`) -/
 theorem clone_digest_witness :
-    digest (cloneRegs true ⟨[[("hello", 1), ("bye", 2)], [("ev", 3)]]⟩
-        { resolvers := [("Query", 0)], subscriptions := [("Sub", 1)], defaultResolvers := [("Query", 9)], defaultResolver := some 7 }).1
-      (cloneRegs true ⟨[[("hello", 1), ("bye", 2)], [("ev", 3)]]⟩
-        { resolvers := [("Query", 0)], subscriptions := [("Sub", 1)], defaultResolvers := [("Query", 9)], defaultResolver := some 7 }).2
-    = (([("Query", some [("hello", 1), ("bye", 2)])], [("Sub", some [("ev", 3)])], [("Query", 9)], some 7) :
+    (cloneRegs true true (fun _ _ => true) hW2 srcW2).map (fun r => digest r.1 r.2)
+    = some (([("Query", some [("hello", 1), ("bye", 2)])], [("Sub", some [("ev", 3)])], [("Query", 9)], some 7) :
         List (String × Option (List (String × Nat))) × List (String × Option (List (String × Nat))) × List (String × Nat) × Option Nat) := by
   rfl
+
+/-- T5, the history of the defect: the source was derived by a visibility transform that hid `Query.bye`; its registry
+    still names the field.  The repaired `clone()` drops the stale entry; `merge_resolvers(self)` (the code before d328eb2)
+    rejects — `SchemaError: Cannot set resolver for unknown field "Query.bye"` — so NO further derivation was possible -/
+theorem clone_registries_stale_entry :
+    (cloneRegs true true (fun t f => !(t == "Query" && f == "bye")) hW2 srcW2).map (fun r => digest r.1 r.2)
+      = some (([("Query", some [("hello", 1)])], [("Sub", some [("ev", 3)])], [("Query", 9)], some 7) :
+        List (String × Option (List (String × Nat))) × List (String × Option (List (String × Nat))) × List (String × Nat) × Option Nat) ∧
+    (cloneRegs true false (fun t f => !(t == "Query" && f == "bye")) hW2 srcW2).isNone = true := by
+  exact ⟨rfl, rfl⟩
 
 /-- the witness of the shared-dict variant: `source.resolvers = {"Query": {"hello": 1}}`; `c = source.clone()`;
     `c.register_resolver("Query", "hello", f2)` -/
@@ -59,14 +101,16 @@ def srcW : Registries := { resolvers := [("Query", 0)], subscriptions := [], def
 /-- REFUTATION for `dict.update` (inner dicts shared): the registration on the clone rewrites the source's `Query` dict -/
 theorem clone_registries_shared_refuted : ¬ CloneFramesSourceRegistries false := by
   intro hf
-  have := (hf hW srcW [.resolver "Query" "hello" 2]).2 0 (by decide)
+  have := (hf true (fun _ _ => true) hW srcW (hW, srcW) [.resolver "Query" "hello" 2] rfl).2 0 (by decide)
   revert this
   decide
 
 /-- the same history on the code of /repo leaves the source alone, and a type WITHOUT an entry at clone time is safe in both -/
 theorem clone_registries_witness_deep :
-    (applyOps [.resolver "Query" "hello" 2, .resolver "Other" "x" 3] (cloneRegs true hW srcW)).1.read 0 = hW.read 0 ∧
-    (applyOps [.resolver "Other" "x" 3] (cloneRegs false hW srcW)).1.read 0 = hW.read 0 := by decide
+    ((cloneRegs true true (fun _ _ => true) hW srcW).map fun r =>
+      (applyOps [.resolver "Query" "hello" 2, .resolver "Other" "x" 3] r).1.read 0) = some (hW.read 0) ∧
+    ((cloneRegs false true (fun _ _ => true) hW srcW).map fun r =>
+      (applyOps [.resolver "Other" "x" 3] r).1.read 0) = some (hW.read 0) := by decide
 
 example : RegsIn hW srcW := ⟨by decide, by decide⟩
 
@@ -74,5 +118,83 @@ example : RegsIn hW srcW := ⟨by decide, by decide⟩
 theorem current_clone_frames_source_registries (hd : PyGql.Generated.HeapCfg.currentCfg.cloneRegsDeep = true) :
     CloneFramesSourceRegistries PyGql.Generated.HeapCfg.currentCfg.cloneRegsDeep := by
   rw [hd]; exact clone_frames_source_registries
+
+/-! ### every derivation succeeds (T5, T6) and `extend_schema` keeps the registries (T8) -/
+
+/-- FULL statement: `clone()` — hence `transform_schema`, which starts with one — never raises because of the registries,
+    whatever was registered on the source, whatever earlier transforms renamed / removed / wrapped -/
+def CloneRegistriesTotal (c : Cfg) : Prop :=
+  ∀ (exists_ : String → String → Bool) (ff : FieldFns) (h : RHeap) (src : Registries), (cloneRegsOn c exists_ ff h src).isSome = true
+
+theorem cloneRegs_filtered_isSome (deep : Bool) (exists_ : String → String → Bool) (h : RHeap) (src : Registries) :
+    (cloneRegs deep true exists_ h src).isSome = true := by
+  cases deep <;> simp [cloneRegs]
+
+/-- filtered entries copied by value: total -/
+theorem clone_registries_total (c : Cfg) (hf : c.cloneRegsFiltered = true) (hv : c.cloneRegsByValue = true) : CloneRegistriesTotal c := by
+  intro exists_ ff h src
+  simp only [cloneRegsOn, hf, hv, Bool.not_true, Bool.and_false, Bool.false_and, Bool.false_eq_true, if_false]
+  exact cloneRegs_filtered_isSome _ _ _ _
+
+/-- PARTIAL (the code of /repo after d328eb2: filtered, but replayed through `register_resolver`): total as long as no
+    field carries a resolver different from the one registered for it -/
+theorem clone_registries_total_partial (c : Cfg) (hf : c.cloneRegsFiltered = true) (exists_ : String → String → Bool) (ff : FieldFns)
+    (h : RHeap) (src : Registries) (h1 : replayConflicts exists_ ff.resolver h src.resolvers = false)
+    (h2 : replayConflicts exists_ ff.subscription h src.subscriptions = false) : (cloneRegsOn c exists_ ff h src).isSome = true := by
+  simp only [cloneRegsOn, hf, if_true, h1, h2, Bool.or_self, Bool.and_false, Bool.false_eq_true, if_false]
+  exact cloneRegs_filtered_isSome _ _ _ _
+
+/-- T6, REFUTATION for the replaying variant: `register_resolver("Query", "hello", r1)`; a schema directive wraps the field's
+    resolver (the field now carries 5); the next `clone()` raises `ValueError: Field "hello" … already has a resolver` -/
+theorem clone_registries_total_refuted_replay : ¬ CloneRegistriesTotal { Cfg.fixed with cloneRegsByValue := false } := by
+  intro hf
+  have := hf (fun _ _ => true) ⟨fun _ _ => some 5, fun _ _ => none⟩ hW srcW
+  revert this
+  decide
+
+/-- T5, REFUTATION for the unfiltered variant (before d328eb2): a stale entry makes the next `clone()` raise `SchemaError` -/
+theorem clone_registries_total_refuted_unfiltered : ¬ CloneRegistriesTotal { Cfg.fixed with cloneRegsFiltered := false } := by
+  intro hf
+  have := hf (fun _ _ => false) ⟨fun _ _ => none, fun _ _ => none⟩ hW srcW
+  revert this
+  decide
+
+/-- the variant in the working tree -/
+theorem current_clone_registries_total (hf : PyGql.Generated.HeapCfg.currentCfg.cloneRegsFiltered = true)
+    (hv : PyGql.Generated.HeapCfg.currentCfg.cloneRegsByValue = true) : CloneRegistriesTotal PyGql.Generated.HeapCfg.currentCfg :=
+  clone_registries_total _ hf hv
+
+/-- FULL statement: the schema `extend_schema` returns shows the registry entries of its source (an extension adds fields and
+    never removes one: every entry still names a field) -/
+def ExtendKeepsRegistries (c : Cfg) : Prop :=
+  ∀ (h : RHeap) (src : Registries) (r : RHeap × Registries), RegsIn h src → extendRegs c (fun _ _ => true) h src = some r →
+    ∀ t f fn, Entry h src.resolvers t f fn → ∃ fn', Entry r.1 r.2.resolvers t f fn'
+
+/-- T8, REFUTATION for the code of /repo: `extend_schema(s, …).resolvers == {}` -/
+theorem extend_keeps_registries_refuted : ¬ ExtendKeepsRegistries { Cfg.fixed with extKeepRegs := false } := by
+  intro hf
+  obtain ⟨fn', a, d, hm, _⟩ := hf hW srcW (hW, { resolvers := [], subscriptions := [], defaultResolvers := [], defaultResolver := none })
+    ⟨by decide, by decide⟩ rfl "Query" "hello" 1 ⟨0, [("hello", 1)], by decide, rfl, by decide⟩
+  simp at hm
+
+/-- … and with the registries carried over (by value, fresh inner dicts) the same history shows the entry; whatever the
+    variant, `extend_schema` writes no inner dict of the source (`clone_frames_source_registries` applies: it is `cloneRegs`) -/
+theorem extend_registries_witness_fixed :
+    (extendRegs Cfg.fixed (fun _ _ => true) hW srcW).map (fun r => digest r.1 r.2)
+      = some (([("Query", some [("hello", 1)])], [], [], none) :
+        List (String × Option (List (String × Nat))) × List (String × Option (List (String × Nat))) × List (String × Nat) × Option Nat) := by
+  rfl
+
+theorem extend_frames_source_registries (c : Cfg) (exists_ : String → String → Bool) (h : RHeap) (src : Registries) (r : RHeap × Registries)
+    (ops : List RegOp) (e : extendRegs c exists_ h src = some r) : RFrame h.size h (applyOps ops r).1 := by
+  simp only [extendRegs] at e
+  split at e
+  · exact clone_frames_source_registries true exists_ h src r ops e
+  · simp only [Option.some.injEq] at e
+    have hfr : RegsFresh h.size r.2 := by rw [← e]; exact ⟨fun e he => (nomatch he), fun e he => (nomatch he)⟩
+    have hsz : h.size ≤ r.1.size := by rw [← e]; exact Nat.le_refl _
+    obtain ⟨c', _⟩ := applyOps_ok h.size ops r hsz hfr
+    have h0 : RFrame h.size h r.1 := by rw [← e]; exact RFrame.refl _ _
+    exact h0.trans c'
 
 end PyGql.Props.C14
